@@ -173,3 +173,7 @@ PROPS["C20"] = dict(level="exploration", units=_c20_units(),
 
 # C11 for coroutine tasks: the programs of C10 with the scheduler-affinity oracles (resumption and completion context)
 PROPS["C11"]["units"].append(Unit("c10_tasks", "harness/c10_tasks.cpp", cfg="p20", max_size=100, quick=(15, 300000), thorough=(240, 20000000)))
+
+# C10 with async stack tracing compiled in (g++ C++20): the await paths differ (frames pushed/popped around every await)
+PROPS["C10"]["units"].append(Unit("c10_tasks_traced", "harness/c10_tasks.cpp", cfg="s20", max_size=100, quick=(20, 400000), thorough=(300, 20000000)))
+PROPS["C10"]["assumptions"] = PROPS["C10"]["assumptions"][:1] + ["two builds: C++20 clang without async stack tracing, and C++20 g++ with tracing on (unit c10_tasks_traced)"]
